@@ -44,8 +44,11 @@ type C14Case struct {
 	// Build2 builds a second tensor of the same element type and shape with other values: byte formats encode it
 	// between encoding and decoding the source ("the caller keeps the first result while encoding something else")
 	Build2 []Op `json:"build2,omitempty"`
-	// Multi: the gob stream carries the second tensor and then the source on one encoder/decoder pair.
+	// Multi: the stream carries a second tensor and then the source (gob: on one encoder/decoder pair; npy: two arrays
+	// written one after the other, as numpy itself does with repeated np.save on one file).
 	Multi bool `json:"multi,omitempty"`
+	// Huge: a source of 4097..80000 elements (direct decode only); the step budgets are scaled.
+	Huge bool `json:"huge,omitempty"`
 	// UsedDst: the source is decoded into a receiver that already holds the second tensor (masked,
 	// lazily transposed) instead of a fresh one.
 	UsedDst bool `json:"used_dst,omitempty"`
@@ -178,6 +181,7 @@ var csvDts = []string{"int", "int8", "int16", "int32", "int64", "uint", "uint8",
 func genC14(seed uint64) *C14Case {
 	r := RNG{s: seed}
 	cs := &C14Case{Seed: seed, Format: c14Formats[r.Intn(len(c14Formats))]}
+	setBig(false)
 	w := newWorld(false)
 	g := &Gen{r: &r, w: w, maxLive: 8, noFault: true}
 	var dt string
@@ -209,6 +213,16 @@ func genC14(seed uint64) *C14Case {
 			sh = []int{n / 25, 25}
 		}
 	}
+	huge := false
+	if (r.Intn(1000) == 0 || os.Getenv("VERIF_FORCE_BIG") != "") && len(sh) > 0 && dt != "string" {
+		// rarely a tensor beyond every small-tensor fast path (bulk writes, scratch buffers): decoded directly, no pipe
+		huge = true
+		sh = [][]int{{65536}, {70000}, {256, 300}, {300, 256}, {4097}, {2, 40000}}[r.Intn(6)]
+		if cs.Format == "csv" && len(sh) == 1 {
+			sh = []int{sh[0] / 16, 16}
+		}
+		setBig(true)
+	}
 	op := g.opNew(dt, sh)
 	op.N &^= 4
 	if op.Mode == "of" {
@@ -216,6 +230,11 @@ func genC14(seed uint64) *C14Case {
 	}
 	if r.Intn(4) == 0 {
 		op.F = float64(1000 + r.Intn(500))
+	}
+	if huge {
+		// plain storage layouts, no mask: what a bulk path would take
+		op.Mode = []string{"row", "col", "colraw", "rowspare"}[r.Intn(4)]
+		op.N = 0
 	}
 	cs.Layout = op.Mode
 	w.Exec(&op)
@@ -289,14 +308,18 @@ func genC14(seed uint64) *C14Case {
 	}
 	b2.N = 0
 	cs.Build2 = []Op{b2}
-	cs.Multi = cs.Format == "gob" && r.Intn(3) == 0
+	cs.Multi = (cs.Format == "gob" && r.Intn(3) == 0) || (cs.Format == "npy" && r.Intn(4) == 0 && dt != "int64" && dt != "uint64")
 	cs.UsedDst = r.Intn(5) == 0
 	cs.PipeCap = []int{1, 2, 3, 7, 16, 64, 256}[r.Intn(7)]
 	cs.MaxChunk = []int{1, 1, 2, 3, 5, 8, 64, 0}[r.Intn(8)]
 	cs.ZeroRead = []int{0, 0, 0, 9, 30}[r.Intn(5)]
 	cs.EOFWith = r.Intn(2) == 0
 	cs.Deliver = r.Next() | 1
-	cs.Direct = r.Intn(12) == 0
+	cs.Direct = r.Intn(12) == 0 || huge
+	if huge {
+		cs.UsedDst = false
+		cs.Huge = true
+	}
 	return cs
 }
 
@@ -441,6 +464,12 @@ func encodeTo(format string, src *tensor.Dense, w io.Writer) (err error, panicke
 		}
 		return enc.Encode(src), false
 	case "npy":
+		if c14Other != nil {
+			// two arrays one after the other on one stream (what np.save does twice on one file)
+			if err := c14Other.WriteNpy(w); err != nil {
+				return err, false
+			}
+		}
 		return src.WriteNpy(w), false
 	case "csv":
 		return src.WriteCSV(w), false
@@ -480,6 +509,18 @@ func decodeFrom(format string, dt tensor.Dtype, r io.Reader) (d *tensor.Dense, e
 		}
 		err = dec.Decode(d)
 	case "npy":
+		if c14Other != nil {
+			first := new(tensor.Dense)
+			if err = first.ReadNpy(r); err != nil {
+				return d, err, false
+			}
+			before := snapOf(first)
+			err = d.ReadNpy(r)
+			if err == nil && (snapOf(first) != before || logicalEqual(c14Other, first, false, false, false) != "") {
+				err = fmt.Errorf("the first tensor of the stream was not delivered intact")
+			}
+			return d, err, false
+		}
 		err = d.ReadNpy(r)
 	case "csv":
 		err = d.ReadCSV(r, tensor.As(dt))
@@ -491,6 +532,7 @@ func decodeFrom(format string, dt tensor.Dtype, r io.Reader) (d *tensor.Dense, e
 
 // execC14 runs one round trip.
 func execC14(cs *C14Case, replay bool) *c14Result {
+	setBig(cs.Huge)
 	tensor.UsePool()
 	tensor.VerifDrainChanPools()
 	P.Reset(false)
@@ -665,7 +707,7 @@ func execC14(cs *C14Case, replay bool) *c14Result {
 	var encPanic, decPanic bool
 	var d *tensor.Dense
 	S.Reset(*flagSites)
-	S.maxYields = 64 << 20
+	S.maxYields = runBudget()
 	if replay && len(cs.Tape) > 0 {
 		S.LoadTape(cs.Tape)
 	} else {
